@@ -468,7 +468,13 @@ func (b *bkState) hidden() string {
 			fl = append(fl, e)
 		}
 		sort.Strings(fl)
-		cs = append(cs, hx([]byte(cl.ID))+"="+strings.Join(fl, ","))
+		e := hx([]byte(cl.ID)) + "=" + strings.Join(fl, ",")
+		// the outbound alias table: an alias is handed out even when the message is then dropped (flow control), so
+		// the order in which a retained replay visited its matches is hidden state until a later delivery uses it
+		if al := cl.VerifOutboundAliases(); al != "" {
+			e += ";al=" + al
+		}
+		cs = append(cs, e)
 	}
 	sort.Strings(cs)
 	return fmt.Sprintf("H[%d/%d/%d|%s]", atomic.LoadInt64(&b.s.Info.Inflight), atomic.LoadInt64(&b.s.Info.InflightDropped),
